@@ -14,7 +14,7 @@
    step list; every pair i <= j of observation points of a concurrent retrieve.
    "The complete tree" is the tree being stored or the one Retrieve returned before the store
    began (an overwriting store may die before it has changed anything). *)
-From PlzV Require Import Base.Harness Model.C12 Proof.C12 Proof.C12_Gen Gen.C12Store.
+From PlzV Require Import Base.Harness Model.C12 Proof.C12 Proof.C12_Fault Proof.C12_Gen Gen.C12Store.
 
 Definition C12_statement : Prop :=
   forall c order st outs src, inputs_ok c st outs src ->
@@ -113,4 +113,105 @@ Proof.
   - vm_compute; reflexivity.
   - vm_compute; reflexivity.
   - vm_compute; reflexivity.
+Qed.
+
+(* ------------------------------------------------------------------------------------------ *)
+(* Read faults: the store does not die, one of its reads RETURNS AN ERROR part-way through the walk
+   of output o, after k of its entries (an entry that cannot be archived / copied: a unix socket, a
+   vanished or unreadable file, ENOSPC ...).  The property's atomicity clause read for this kind of
+   incomplete store: a later retrieve of the key misses or restores the complete tree. *)
+Definition C12_fault_statement : Prop :=
+  forall c order st outs src o k, inputs_ok c st outs src -> In o outs ->
+    let r := retrieve c (run (store_steps_f c order st outs src (Some (o, k))) st) outs in
+    r = Miss \/ r = Hit (pack src outs).
+
+(* The unchanged code violates it for the uncompressed cache: storeFile only logs the error of
+   RecursiveLink and Store renames the temporary entry into place all the same, so a directory output
+   is published without the entries the walk had not reached (reproduced on the real dirCache by the
+   harness with the cache on another file system and a socket in the output directory, class
+   plain-store-walk-error-partial-hit). *)
+Theorem C12_fault_refuted : ~ C12_fault_statement.
+Proof. exact fault_refuted. Qed.
+Print Assumptions C12_fault_refuted.
+
+(* What holds, for ALL trees, output lists, prior cache states and fault positions: the clause,
+   whenever `fault_defect` reports no defect class - i.e. ALWAYS for the compressed cache, and for the
+   uncompressed one when the walk failed at the root of the output (nothing of it stored: miss) or
+   behind its last storable entry (everything stored: the complete tree). *)
+Theorem C12_fault_partial :
+  forall c order st outs src o k, inputs_ok c st outs src -> In o outs ->
+    fault_defect c src (Some (o, k)) = None ->
+    let r := retrieve c (run (store_steps_f c order st outs src (Some (o, k))) st) outs in
+    r = Miss \/ r = Hit (pack src outs).
+Proof. exact fault_partial_holds. Qed.
+Print Assumptions C12_fault_partial.
+
+(* The compressed cache at full strength - no hypothesis on the tree, the outputs (they may be
+   missing), the prior state or the retrieved list: if the archive loop ended in an error then
+   (1) the completed Store leaves a miss, (2) if the process ALSO dies after any n steps of that
+   store, a retrieve misses or returns exactly what it returned before the store (under the crash
+   classifier), and (3) this rests on the removal of the temporary tarball in the error branch:
+   the same store without it publishes the truncated archive (what seeded mutation m3 does). *)
+Theorem C12_fault_compressed :
+  forall order st outs src f outs', snd (pack_f src f outs) = true ->
+    retrieve true (run (store_steps_f true order st outs src f) st) outs' = Miss
+    /\ (crash_defect true st outs' = None -> forall n,
+          let r := retrieve true (run (firstn n (store_steps_f true order st outs src f)) st) outs' in
+          r = Miss \/ r = retrieve true st outs')
+    /\ (forall o, retrieve true (run (store_comp_g false order st outs src f) st) (o :: outs')
+                  = Hit (unpack (fst (pack_f src f outs)))).
+Proof. exact fault_compressed_holds. Qed.
+Print Assumptions C12_fault_compressed.
+
+(* The uncompressed cache, exactly: a faulted store is, step for step, the complete store of the
+   source tree truncated at the fault (so Retrieve afterwards hits with precisely that prefix), for
+   every walk-ordered tree; and with no fault the faulted step lists are the ones C12_partial is
+   about. *)
+Theorem C12_fault_plain_exact :
+  (forall order st outs src o k, wfb (pack src outs) = true -> In o outs ->
+      store_steps_f false order st outs src (Some (o, k)) = store_steps false order st outs (cut o k src))
+  /\ (forall c order st outs src, all_present src outs = true ->
+      store_steps_f c order st outs src None = store_steps c order st outs src).
+Proof. exact fault_plain_exact_holds. Qed.
+Print Assumptions C12_fault_plain_exact.
+
+(* The error branches the fault model follows are the ones gotrans reads from the source. *)
+Theorem C12_fault_source_shape :
+  (forall order st outs src f,
+      store_steps_f true order st outs src f = store_comp_g (removes_tmp compressed_error_branch) order st outs src f)
+  /\ returns plain_link_error_branch = false /\ removes_tmp plain_link_error_branch = false.
+Proof. exact (conj comp_fault_follows_source plain_fault_follows_source). Qed.
+Print Assumptions C12_fault_source_shape.
+
+(* Non-vacuity: a tree with a nested directory and a symlink, stored over a prior entry; the fault
+   sits in the middle of d's walk.  Compressed: the archive loop does end in an error, the prefix it
+   had written is non-empty, the result is a miss, and without the removal it would be a hit with
+   that prefix.  Uncompressed: the classifier reports the defect class and the result is the partial
+   hit; a fault at the root is a miss, one behind the last entry the complete tree. *)
+Example C12_fault_nonvacuous :
+  let src := [([s "d"], D); ([s "d"; s "a"], F (s "1") false); ([s "d"; s "e"], D); ([s "d"; s "e"; s "c"], F (s "3") true);
+              ([s "d"; s "l"], L (s "a")); ([s "m"], F (s "meta") false)] in
+  let outs := [s "m"; s "d"] in
+  let old := [([kK], E D); ([kK; s "m"], E (F (s "m0") false)); ([kK; s "d"], E D)] in
+  let oldc := [([kK], Tar [([s "m"], F (s "m0") false)])] in
+  (forall c, inputs_ok c (if c then oldc else old) outs src)
+  /\ pack_f src (Some (s "d", 3)) outs = ([([s "m"], F (s "meta") false); ([s "d"], D); ([s "d"; s "a"], F (s "1") false); ([s "d"; s "e"], D)], true)
+  /\ retrieve true oldc outs <> Miss
+  /\ retrieve true (run (store_steps_f true [] oldc outs src (Some (s "d", 3))) oldc) outs = Miss
+  /\ retrieve true (run (store_comp_g false [] oldc outs src (Some (s "d", 3))) oldc) outs
+     = Hit [([s "m"], F (s "meta") false); ([s "d"], D); ([s "d"; s "a"], F (s "1") false); ([s "d"; s "e"], D)]
+  /\ fault_defect true src (Some (s "d", 3)) = None
+  /\ fault_defect false src (Some (s "d", 3)) = Some (s "plain-store-walk-error-partial-hit")
+  /\ retrieve false (run (store_steps_f false [] old outs src (Some (s "d", 3))) old) outs
+     = Hit [([s "m"], F (s "meta") false); ([s "d"], D); ([s "d"; s "a"], F (s "1") false); ([s "d"; s "e"], D)]
+  /\ fault_defect false src (Some (s "d", 0)) = None
+  /\ retrieve false (run (store_steps_f false [] old outs src (Some (s "d", 0))) old) outs = Miss
+  /\ fault_defect false src (Some (s "d", 5)) = None
+  /\ retrieve false (run (store_steps_f false [] old outs src (Some (s "d", 5))) old) outs = Hit (pack src outs).
+Proof.
+  cbn zeta. split; [intros c|].
+  - unfold inputs_ok. repeat split; try (vm_compute; reflexivity); try discriminate.
+    + repeat constructor; cbn; intuition discriminate.
+    + destruct c; [discriminate|reflexivity].
+  - repeat split; try (vm_compute; reflexivity). vm_compute. discriminate.
 Qed.
